@@ -305,9 +305,16 @@ macro "gen_agree" : tactic => `(tactic|
       decide_eq_true_eq, Bool.not_eq_true', decide_eq_false_iff_not, Bool.and_eq_true, Bool.or_eq_true] at *)
    all_goals repeat' (first
      | with_reducible rfl
-     | (apply ite_both) <;> intro _
-     | ((apply ite_left) <;> intro _ <;> try (first | contradiction | (exfalso; omega)))
-     | ((apply ite_right) <;> intro _ <;> try (first | contradiction | (exfalso; omega))))
+     | (apply ite_both) <;> intro h <;> (try simp only [h, if_true, if_false, and_self, and_true, true_and, eq_self,
+          not_true_eq_false, not_false_eq_true])
+     | ((apply ite_left) <;> intro h <;> first
+          | contradiction
+          | (exfalso; omega)
+          | (try simp only [h, if_true, if_false, and_self, and_true, true_and, eq_self, not_true_eq_false, not_false_eq_true]))
+     | ((apply ite_right) <;> intro h <;> first
+          | contradiction
+          | (exfalso; omega)
+          | (try simp only [h, if_true, if_false, and_self, and_true, true_and, eq_self, not_true_eq_false, not_false_eq_true])))
    all_goals (first
      | (simp only [R.val.injEq, TS.mk.injEq, Dur.mk.injEq, reduceCtorEq, and_true, true_and, and_self]; done)
      | (simp only [R.val.injEq, TS.mk.injEq, Dur.mk.injEq, reduceCtorEq, and_true, true_and, and_self]; omega)
